@@ -13,7 +13,7 @@ Rec == ndJsonDeserialize(IOEnv.TRACE)
 VARIABLES l, run, cfg, viol, hits, nruns, learned, lastDisc, acc, wpos, rxq
 vars == <<l, run, cfg, viol, hits, nruns, learned, lastDisc, acc, wpos, rxq>>
 Rules == {"N1", "N2", "N3", "N4", "D1", "D2", "D3", "D4", "D5", "D6", "E2", "E3", "Q2", "PANIC"}
-SOCKS == {0, 1, 2, 3}     \* two UDP sockets, an ICMP socket bound to an identifier, a raw socket
+SOCKS == {0, 1, 2, 3, 4}  \* two UDP sockets, an ICMP socket bound to an identifier, a raw socket, a raw socket of the other family
 Add(v, x) == IF Len(v) >= 24 THEN v ELSE Append(v, x)
 RECURSIVE AddAll(_, _)
 AddAll(v, xs) == IF xs = <<>> THEN v ELSE AddAll(Add(v, Head(xs)), Tail(xs))
@@ -172,7 +172,7 @@ Step ==
                 lost == {s \in SOCKS : \E j \in 1..Len(rxq[s]) : rxq[s][j].must}
                 d5 == IF "drained" \in DOMAIN r /\ lost # {} THEN << <<l, "D5", CHOOSE s \in lost : TRUE, "never-delivered">> >> ELSE <<>>
             IN /\ viol' = AddAll(viol, d3 \o d5)
-               /\ hits' = [hits EXCEPT !["D3"] = @ + Len(acc[0]) + Len(acc[1]) + Len(acc[2]) + Len(acc[3])]
+               /\ hits' = [hits EXCEPT !["D3"] = @ + Len(acc[0]) + Len(acc[1]) + Len(acc[2]) + Len(acc[3]) + Len(acc[4])]
                /\ UNCHANGED <<run, cfg, nruns, learned, lastDisc, acc, wpos, rxq>>
        [] r.ev = "panic" ->
             /\ viol' = Add(viol, <<l, "PANIC", r.msg>>)
